@@ -7,7 +7,7 @@ Require BSgen.Consts.
 Import ListNotations.
 Close Scope N_scope. Open Scope nat_scope.
 
-Definition slot := list byte.
+Notation slot := (list byte) (only parsing).
 
 (* PREAMBLE *)
 Definition pre0 : byte := BSgen.Consts.preamble0.
